@@ -1033,6 +1033,7 @@ pub fn check(tier: &str, seed: u64) -> i32 {
         .set("faults", stats.counters_json("c18.fault."))
         .set("reach", stats.counters_json("c18.reach."))
         .set("unjudged", stats.counters_json("c18.unjudged."))
+        .set("reach_probes_at_zero", crate::report::probes_at_zero(&stats, &["c18.reach.at_rule_switch_pm1s","c18.reach.rule_in_leap_year_after_february","c18.reach.monotonic_lifetime_walks","c18.fault.atomic_upgrade.injected","c18.fault.atomic_upgrade.effective(lookups_on_new_file)","c18.fault.zone_switched_back_and_forth.injected","c18.fault.slow_clock_reads.runs","c18.region.at-transition","c18.lookups.getters_judged"]))
         .set("simulated_span_seconds_sum", Json::Int(stats.get("c18.sim_span_seconds") as i128))
         .set("configurations_per_hour", Json::Int((stats.get("c18.configurations") as f64 / wall.max(1e-9) * 3600.0) as i128))
         .set("real_components", Json::s("offset.rs resolve (file read, parse, clock read, lookup), local/** (header, data block, cursor, footer parser, rule evaluation), datetime.rs/time.rs now_local + getters + format, util/**"))
